@@ -228,6 +228,25 @@ def run (ctx):
       sw = [h for h in hs_ if not any(x.kind == 'raise_stmt' or any(call_name(c) == 'close' for c in q.node_calls(x)) for x in gp.reachable(h, exc=False))]
       ctx.ob('R-CONTAIN', prd, "a failing receive handler closes its worker", not sw, "no swallowing frame between the handler and _do_recv" if not sw else
              "_push_receive_data catches the handler's exception and neither re-raises nor closes: the connection is wedged on the bad message", (iow.module, n.ast), 'D3')
+  # a closing worker leaves the loop's set at more than one place (the failing branch itself and the deferred close command): every
+  # such removal has to tolerate that another one ran first, or the deferred command raises inside RecocoIOLoop.run and ends the loop
+  iomod = iow.module
+  rm_sites = []
+  for fn_ in [f_ for c_ in iomod.classes.values() for f_ in c_.methods.values()] + list(iomod.funcs.values()):
+    for c in calls_in(fn_.node, nested=True):
+      if call_name(c) in ('remove', 'discard', 'pop') and isinstance(c.func, ast.Attribute) and norm(c.func.value).endswith('._workers'):
+        rm_sites.append((fn_, c))
+  ctx.floor('worker-set removal sites', len(rm_sites), 1)
+  strict = [(f_, c) for f_, c in rm_sites if call_name(c) != 'discard']
+  for f_, c in strict:
+    others = [(f2, c2) for f2, c2 in rm_sites if c2 is not c]
+    gf_ = None
+    ctx.ob('R-SIB', f_, "removing a worker from the loop tolerates an earlier removal (`%s`)" % norm(c)[:50], not others,
+           "only removal site" if not others else
+           "`%s` raises KeyError when the worker is already gone, and %s also removes it (`%s`): after a failure in a receive handler the deferred close command raises inside RecocoIOLoop.run, "
+           "whose catch-all logs and breaks - IO stops for every other connection" % (norm(c)[:50], others[0][0].qual, norm(others[0][1])[:50]), (iomod, c), 'D3')
+  if not strict:
+    ctx.ob('R-SIB', iow, "every removal from the loop's worker set is idempotent", True, "%d discard site(s)" % len(rm_sites), iow, 'D3')
   loop = repo.cls(IO, 'RecocoIOLoop'); lr = q.find_method(repo, loop, 'run', 'C10'); ctx.analysed(lr)
   g = q.cfg_of(lr)
   for n in g.nodes_with_call(lambda c: call_name(c) in ('_do_recv', '_do_send', '_do_exception')):
@@ -258,6 +277,23 @@ def run (ctx):
   chk = [n for n in g.nodes if n.kind == 'cond' and L.newoff and norm(n.ast) in ('%s != %s' % (L.newoff, L.wlen), '%s == %s' % (L.newoff, L.wlen))]
   good = bool(chk) and all(any(g.dominates(c, d[0]) for c in chk) for d in L.deliver)
   ctx.ob('R-DOM', f, "decoded length is compared with the declared length before delivery", good, "new_offset != message_length -> BAD_LENGTH" if good else "no consumed==declared test dominates delivery", f, 'D4')
+  # every consume of a declared length is preceded by the test that this many bytes have arrived (also on the reject paths):
+  # consuming ahead of arrival empties the buffer and the rest of that message is later read as a header
+  for a in L.advance:
+    if a[1] != 'consume' or a[2] is None or norm(a[2]) != L.wlen: continue
+    good = framing.avail_ge_wlen(L, a[0])
+    ctx.ob('R-DOM', f, "`%s` only when the whole message has arrived" % a[0].text(50), good, "dominated by available >= %s" % L.wlen if good else
+           "this consume of the declared length is not dominated by a test that the bytes are there (facts %s): for a message whose body has not arrived yet the buffered part is dropped and the remainder, "
+           "when it arrives, is framed as if it were a new message" % q.fact_strs(g, a[0]), (f.module, a[0].ast), 'D4')
+  cr = iow.find_method('consume_receive_buf')
+  if cr is not None:
+    ctx.analysed(cr); gc_ = q.cfg_of(cr)
+    cut = [q.enclosing_stmt_node(gc_, st) for t, v, st, k in q.stores_in(cr.node) if norm(t) == 'self.receive_buf' and isinstance(v, ast.Subscript)]
+    for n in cut:
+      lt = [1 for l_, o_, r_, b_ in q.guard_facts(gc_, n) if r_ is not None and
+            ((o_ == '>=' and norm(l_) == 'len(self.receive_buf)' and norm(r_) == cr.params[1]) or (o_ == '<=' and norm(r_) == 'len(self.receive_buf)' and norm(l_) == cr.params[1]))]
+      ctx.ob('R-DOM', cr, "the receive buffer is never consumed beyond what it holds", bool(lt), "underrun raises before the cut" if lt else
+             "`%s` is no longer guarded by len(receive_buf) >= %s: a caller consuming a declared length ahead of arrival silently empties the buffer instead of failing (and closing that connection)" % (n.text(50), cr.params[1]), (iow.module, n.ast), 'D4')
   ub = repo.cls(LOF, 'ofp_base').methods.get('unpack_new')
   if ub is not None:
     ctx.analysed(ub); g3 = q.cfg_of(ub)
